@@ -180,10 +180,10 @@ def translate(env, a, tag="tr", dep=None):
     return Sh("Translate(%s)" % a.name, dom, O.OTranslate(a.oset, v.oracle()), pv, a.space_vars, closed_form=a.closed_form)
 
 
-def rotate(env, a, tag="rot", dep=None, around=True):
-    """2-D rotation by a (possibly parameter-dependent) angle about a symbolic point"""
+def rotate(env, a, tag="rot", dep=None, around=True, around_dep=None):
+    """2-D rotation by a (possibly parameter-dependent) angle about a symbolic (possibly parameter-dependent) point"""
     ang = Aff(env, tag + "w", 1, dep)
-    ar = Aff(env, tag + "p", 2, None) if around else None
+    ar = Aff(env, tag + "p", 2, around_dep) if around else None
     dom = tp.domains.Rotate.from_angles(a.dom, ang.tp(), rotate_around=(ar.tp() if around else None))
     angle = ang.oracle()
     L_ = env.L
@@ -193,6 +193,7 @@ def rotate(env, a, tag="rot", dep=None, around=True):
 
     around_o = ar.oracle() if around else (lambda prm: [0, 0])
     pv = _merge_pvars(a.pvars, [(dep, 1)] if dep else [])
+    pv = _merge_pvars(pv, [(around_dep, 1)] if (around and around_dep) else [])
     return Sh("Rotate(%s)" % a.name, dom, O.ORotate2D(a.oset, cs, around_o), pv, a.space_vars, closed_form=a.closed_form)
 
 
